@@ -125,8 +125,11 @@ class C06(Spec):
             if r < 0.5 and t[1] != U.CS_UTF8 and len(v[1]) > 0:
                 pos = rng.choice([0, len(v[1]) // 2, len(v[1]) - 1])
                 cs = list(v[1])
-                bad = {U.CS_NUM: [47, 58, 33, 65, 0xE4], U.CS_PRINT: [42, 59, 64, 38, 0xE4], U.CS_IA5: [128, 0xE4, 0x20AC],
-                       U.CS_VIS: [31, 127, 128, 0xE4]}[t[1]]
+                # boundary code points of each alphabet, Latin-1, and code points above U+00FF whose low byte is a
+                # legal character (the writer narrows with `as u8`)
+                bad = {U.CS_NUM: [47, 58, 33, 65, 0xE4, 0x130, 0x120, 0x1F630], U.CS_PRINT: [42, 59, 64, 38, 0xE4, 0x141, 0x220, 0x1F641],
+                       U.CS_IA5: [128, 0xE4, 0x20AC, 0x141, 0x17E, 0x2041, 0x1F642, 0x100],
+                       U.CS_VIS: [31, 127, 128, 0xE4, 0x141, 0x17E, 0x2041, 0x1F642, 0x120]}[t[1]]
                 cs[pos] = rng.choice(bad)
                 return ("str", cs)
             n = U.gen_len(rng, key, "bad")
